@@ -38,6 +38,9 @@ type NormalEstimator struct {
   sum_g []float64
   sum_m []float64
   sum_s []float64
+  // largest log-weight seen by each thread; the partial sums of a thread are
+  // relative to it
+  max_g []float64
   gamma_max float64
 }
 
@@ -79,10 +82,12 @@ func (obj *NormalEstimator) Initialize(p ThreadPool) error {
   obj.sum_g = make([]float64, p.NumberOfThreads())
   obj.sum_m = make([]float64, p.NumberOfThreads())
   obj.sum_s = make([]float64, p.NumberOfThreads())
+  obj.max_g = make([]float64, p.NumberOfThreads())
   for i := 0; i < p.NumberOfThreads(); i++ {
     obj.sum_g[i] = 0.0
     obj.sum_m[i] = 0.0
     obj.sum_s[i] = 0.0
+    obj.max_g[i] = math.Inf(-1)
   }
   obj.gamma_max = 0.0
   return nil
@@ -90,14 +95,28 @@ func (obj *NormalEstimator) Initialize(p ThreadPool) error {
 
 func (obj *NormalEstimator) NewObservation(x, gamma ConstScalar, p ThreadPool) error {
   id := p.GetThreadId()
-  if gamma == nil {
+  // log-weight of this observation
+  lg := 0.0
+  if gamma != nil {
+    lg = gamma.GetFloat64() - obj.gamma_max
+  }
+  if math.IsInf(lg, -1) {
+    // weight zero
+    return nil
+  }
+  // keep the partial sums relative to the largest log-weight seen so far, so
+  // that weights which are all tiny (or huge) neither underflow to zero nor
+  // overflow, whatever the order in which the observations arrive
+  if lg > obj.max_g[id] {
+    f := math.Exp(obj.max_g[id] - lg)
+    obj.sum_m[id] *= f
+    obj.sum_s[id] *= f
+    obj.sum_g[id] *= f
+    obj.max_g[id]  = lg
+  }
+  {
     x := x.GetFloat64()
-    obj.sum_m[id] += x
-    obj.sum_s[id] += x*x
-    obj.sum_g[id] += 1.0
-  } else {
-    x := x.GetFloat64()
-    g := math.Exp(gamma.GetFloat64() - obj.gamma_max)
+    g := math.Exp(lg - obj.max_g[id])
     obj.sum_m[id] += g*x
     obj.sum_s[id] += g*x*x
     obj.sum_g[id] += g
@@ -112,10 +131,22 @@ func (obj *NormalEstimator) updateEstimate() error {
   sum_g := 0.0
   sum_m := 0.0
   sum_s := 0.0
+  // bring the partial sums of all threads to a common scale
+  max_g := math.Inf(-1)
+  for i := 0; i < len(obj.max_g); i++ {
+    if max_g < obj.max_g[i] {
+      max_g = obj.max_g[i]
+    }
+  }
   for i := 0; i < len(obj.sum_m); i++ {
-    sum_m += obj.sum_m[i]
-    sum_s += obj.sum_s[i]
-    sum_g += obj.sum_g[i]
+    if math.IsInf(obj.max_g[i], -1) {
+      // this thread has not seen any observation
+      continue
+    }
+    f := math.Exp(obj.max_g[i] - max_g)
+    sum_m += f*obj.sum_m[i]
+    sum_s += f*obj.sum_s[i]
+    sum_g += f*obj.sum_g[i]
   }
   s1 := sum_m/float64(sum_g)
   s2 := sum_s/float64(sum_g)
@@ -135,6 +166,7 @@ func (obj *NormalEstimator) updateEstimate() error {
   obj.sum_g = nil
   obj.sum_m = nil
   obj.sum_s = nil
+  obj.max_g = nil
   return nil
 }
 
